@@ -36,20 +36,22 @@ def client_clamp(doc, line, col):
 
 def gen_sequence(rng, root):
     docs = [Doc("f1", "file://" + root + "/src/a.gleam"), Doc("f2", "file://" + root + "/src/b.gleam"),
-            Doc("f3", "file://" + root + "/free/c.gleam"), Doc("o1", "untitled:Untitled-1"), Doc("f9", "file://" + root + "/src/never.gleam")]
+            Doc("f3", "file://" + root + "/free/c.gleam"), Doc("o1", "untitled:Untitled-1"), Doc("f9", "file://" + root + "/src/never.gleam"),
+            # non-file URIs whose path part names a file of the package: they are other documents, not aliases of it
+            Doc("o2", "untitled:" + root + "/src/a.gleam"), Doc("o3", "git:" + root + "/src/b.gleam?ref=HEAD")]
     client = {}          # uri key -> editor text (only while every edit so far was valid); None = unknown to the oracle
     seq = []
     rid = 100
     n = rng.randrange(4, 12)
     for _ in range(n):
         k = rng.randrange(10)
-        d = rng.choice(docs[:4]) if rng.random() < 0.85 else docs[4]
+        d = rng.choice(docs[:4] + docs[5:]) if rng.random() < 0.85 else docs[4]
         if k < 2 or (d.key not in client and d.key != "f9" and rng.random() < 0.7):
             if d.key == "f9":
                 continue
             t = rand_text(rng)
             seq.append(("open", d, t))
-            if d.key != "o1":
+            if not d.key.startswith("o"):
                 client[d.key] = t
             continue
         if k < 6:
@@ -308,6 +310,62 @@ def run_c15(res, tier, seed):
                        "requests at valid and invalid positions; a liveness probe after every message; final text of every document read back "
                        "through glas/syntaxTree. non-trivial = at least two didChange and one request")
     res.cov["samples"] += [{"sequence": [describe(op) for op in jobs[i][2]][:6], "model": mo[i][:200]} for i in (0, 1)]
+
+
+def run_c13_blackbox(res, tier, seed):
+    """C13 against the real binary: didOpen, then notifications with 1-4 VALID changes each (ranges refer to the
+    document as left by the previous change of the same notification), full-text replacements mixed in"""
+    lsp.build_glas()
+    n_seq = 40 if tier == "quick" else 1500
+    base = os.path.join(common.ROOT, "work", f"c13-{os.getpid()}")
+    shutil.rmtree(base, ignore_errors=True)
+    jobs = []
+    for i in range(n_seq):
+        rng = random.Random(seed * 7777 + i)
+        root = os.path.join(base, f"s{i}")
+        d = Doc("f1", "file://" + root + "/src/a.gleam")
+        docs = [d, Doc("f2", "file://" + root + "/src/b.gleam"), Doc("f3", "file://" + root + "/free/c.gleam"),
+                Doc("o1", "untitled:Untitled-1"), Doc("f9", "file://" + root + "/src/never.gleam")]
+        cur = rand_text(rng, rng.randrange(0, 25))
+        seq = [("open", d, cur)]
+        for _ in range(rng.randrange(1, 6)):
+            changes = []
+            for _c in range(rng.randrange(1, 5)):
+                ins = rand_text(rng, rng.randrange(0, 5))
+                if rng.random() < 0.1:
+                    new = ins
+                    ch = (None, ins, "full")
+                else:
+                    pos = p_text.client_positions(cur)
+                    a = rng.randrange(len(pos)); b = rng.randrange(a, len(pos))
+                    new = cur[:pos[a][2]] + ins + cur[pos[b][2]:]
+                    ch = ((pos[a][0], pos[a][1], pos[b][0], pos[b][1]), ins, "valid")
+                if not p_text.wf_crlf(new):
+                    continue
+                changes.append(ch)
+                cur = new
+            if changes:
+                seq.append(("change", d, changes))
+        jobs.append((root, docs, seq, cur))
+    try:
+        observations = common.parallel_map(lambda j: run_sequence(j[0], j[1], j[2]), jobs, workers=min(common.NCPU, 12))
+    finally:
+        shutil.rmtree(base, ignore_errors=True)
+    multi = 0
+    for (root, docs, seq, cur), obs in zip(jobs, observations):
+        res.cov["evaluations"] += len(seq)
+        if any(op[0] == "change" and len(op[2]) >= 2 for op in seq):
+            multi += 1
+        replay = {"sequence": [describe(op) for op in seq], "observation": {k: v for k, v in obs.items() if k != "texts"}, "texts": obs.get("texts")}
+        if not obs["alive"]:
+            res.add_violation("C13/server-died-on-valid-edits", f"the server ended after message {obs['died_at']}", replay)
+            continue
+        got = obs["texts"].get("f1")
+        exp = p_text.strip_cr(cur)
+        if got != exp:
+            res.add_violation("C13/blackbox-text-diverged", f"after valid edits the server analyses {got!r}, the editor holds {exp!r}", replay)
+    res.cov["blackbox_sequences"] = n_seq
+    res.cov["blackbox_multi_change_notifications"] = multi
 
 
 def describe(op):
